@@ -358,6 +358,7 @@ def explore(tier, seed, nproc):
     H = harness_specs(pal)
     nets = [(k, H[k]) for k in ("chain", "merge", "bifurcation", "twobytwo", "cycle_ramp", "interior_ramps", "merge_ramp")]
     nets += [("chain-reversed", H["chain"]), ("twobytwo-reversed", H["twobytwo"])]
+    nets += [(k, H[k]) for k in ("tri_split", "tri_merge")]  # three leaving / three entering links
     # family A: every history over the full alphabet up to ka, plus every history over the core alphabet up to kc
     ka, kc = (2, 3) if tier == "quick" else (3, 4)
     kb = 4 if tier == "quick" else 5
